@@ -51,6 +51,11 @@ def render(model):
     lines = ["[circus]", "check_delay = -1",
              "endpoint = tcp://127.0.0.1:1",
              "pubsub_endpoint = tcp://127.0.0.1:2", ""]
+    if model.get("genv"):
+        lines.append("[env]")
+        for kk in sorted(model["genv"]):
+            lines.append("%s = %s" % (kk, model["genv"][kk]))
+        lines.append("")
     for sk in model.get("sockets") or []:
         # managed sockets are never edited: their sections stay fixed
         lines += ["[socket:%s]" % sk["name"], "host = 127.0.0.1",
@@ -69,6 +74,8 @@ def render(model):
                   "priority = %d" % wm["priority"]]
         if wm.get("socket"):
             lines.append("use_sockets = True")
+        if wm.get("copy_env"):
+            lines.append("copy_env = True")
         if wm.get("myopt") is not None:
             lines.append("myopt = %s" % wm["myopt"])
         if wm.get("args") is not None:
@@ -104,6 +111,17 @@ def fresh_options(path):
 
 
 def execute(case):
+    environ0 = dict(os.environ)
+    try:
+        return _execute(case, environ0)
+    finally:
+        # (whatever the code under test did to the process environment
+        # must not leak into the next case)
+        os.environ.clear()
+        os.environ.update(environ0)
+
+
+def _execute(case, environ0):
     tmp = tempfile.mkdtemp(prefix='c12-')
     cfg = os.path.join(tmp, 'circus.ini')
     model = copy.deepcopy(case["initial"])
@@ -131,6 +149,14 @@ def execute(case):
                 break
             before = copy.deepcopy(model)
             kind = ed[0]
+            if kind == 'genv':
+                g = dict(model.get("genv") or {})
+                if ed[2] is None:
+                    g.pop(ed[1], None)
+                else:
+                    g[ed[1]] = ed[2]
+                model["genv"] = g
+                classes.add('global-env-edit')
             if kind == 'die':
                 # a worker dies and nothing has noticed yet when the next
                 # reloadconfig arrives
@@ -209,7 +235,16 @@ def execute(case):
                         names, got, where)))
                 break
             # ---- options / numprocesses as a fresh start would have them
-            fresh = fresh_options(cfg)
+            # (a daemon freshly started on this file: in the environment
+            # this one was started with)
+            cur_env = dict(os.environ)
+            os.environ.clear()
+            os.environ.update(environ0)
+            try:
+                fresh = fresh_options(cfg)
+            finally:
+                os.environ.clear()
+                os.environ.update(cur_env)
             for n in names:
                 opt = (w.probe('options', {"name": n}) or {}).get("options")
                 want = fresh.get(n)
@@ -259,6 +294,8 @@ def execute(case):
                                  if a.get(kk) != b.get(kk))
                 if n in had_death:
                     continue      # its dead worker was rightly replaced
+                if (before.get("genv") or {}) != (model.get("genv") or {}):
+                    continue      # [env] is part of every watcher's env
                 if not changed:
                     if old != new:
                         viols.append(Violation(
@@ -326,6 +363,11 @@ def _strategy():
             for n in order:
                 if draw(st.booleans()):
                     model["watchers"][n]["socket"] = "web"
+        if draw(st.integers(0, 2)) == 0:
+            model["genv"] = {"GV": "1"}
+            for n in order:
+                if draw(st.booleans()):
+                    model["watchers"][n]["copy_env"] = True
         if draw(st.integers(0, 3)) == 0:
             model["plugins"] = [{"name": "stats",
                                  "priority": draw(st.sampled_from([1, 5]))}]
@@ -336,6 +378,10 @@ def _strategy():
                                          'revert', 'die']))
             if kind == 'die':
                 edits.append(['die', draw(st.sampled_from(names))])
+                continue
+            if kind == 'noop' and draw(st.booleans()):
+                edits.append(['genv', draw(st.sampled_from(['GV', 'GW'])),
+                              draw(st.sampled_from([None, '1', '2']))])
                 continue
             if kind == 'set':
                 field = draw(st.sampled_from(
